@@ -71,11 +71,33 @@ theorem SimInv.tr {K : Comb κ α β} {Inv : InvT κ α β} (h : SimInv K Inv)
     · rw [port_append]; exact PSt.run_append_some (hp1 i) (hp2 i)
     · simpa [List.append_assoc] using hi2
 
+/-- reachable contract states: closing implies finalize was started -/
+def PSt.WF (p : PSt) : Prop := p.closed = true → p.started = true
+
+theorem PSt.run_wf {p p' : PSt} {tr : List (Ev β)} (h : p.run tr = some p') (hw : p.WF) : p'.WF := by
+  induction tr generalizing p with
+  | nil => simp at h; subst h; exact hw
+  | cons e tr ih =>
+    rw [PSt.run_cons] at h
+    cases hs : p.step e with
+    | none => simp [hs] at h
+    | some q =>
+      simp [hs] at h
+      refine ih h ?_
+      cases e with
+      | rdy b => simp [PSt.step] at hs; subst hs; exact hw
+      | snd x =>
+        simp only [PSt.step] at hs
+        split at hs
+        · simp at hs; subst hs; exact hw
+        · simp at hs
+      | fin b => simp [PSt.step] at hs; subst hs; intro _; rfl
+
 /-- From a simulation invariant to contract-soundness. -/
 theorem SimInv.sound {K : Comb κ α β} {Inv : InvT κ α β} (h : SimInv K Inv) {k0 : κ}
     {ports : List Nat} {spec : Nat → List α → List β → Prop}
     (h0 : Inv {} k0 (fun _ => {}) [] (fun _ => []))
-    (hc : ∀ pu k pd su sd, Inv pu k pd su sd → pu.closed = true →
+    (hc : ∀ pu k pd su sd, Inv pu k pd su sd → (∀ i, (pd i).WF) → pu.closed = true →
       ∀ i ∈ ports, (pd i).closed = true ∧ spec i su (sd i)) :
     K.Sound k0 ports spec := by
   intro up down k' ht hok
@@ -83,7 +105,8 @@ theorem SimInv.sound {K : Comb κ α β} {Inv : InvT κ α β} (h : SimInv K Inv
   obtain ⟨pd', hpd, hi⟩ := h.tr ht {} (fun _ => {}) [] (fun _ => []) pu' h0 hpu
   refine ⟨fun i => ProtoOk_iff.2 ⟨pd' i, hpd i⟩, fun hcl i hi' => ?_⟩
   have hcu : pu'.closed = true := (PSt.run_closed hpu).2 (Or.inr hcl)
-  have := hc _ _ _ _ _ hi hcu i hi'
+  have hwf : ∀ j, (pd' j).WF := fun j => PSt.run_wf (hpd j) (by intro h; cases h)
+  have := hc _ _ _ _ _ hi hwf hcu i hi'
   refine ⟨?_, by simpa using this.2⟩
   have := (PSt.run_closed (hpd i)).1 this.1
   simpa using this
